@@ -44,10 +44,15 @@ def run(ctx):
                 o = cls(cosmo, **params)
                 lnk = np.array([r.uniform(np.log(1e-8), np.log(1e5)) for _ in range(7)])
                 got = np.asarray(o.lnt(lnk), float)
-                t = tup(comp[f"{name}_lnt"]["tree"])
-                env = auto_env(t, o, args={"lnk": lnk})
-                reqs.append((f"Transfer/{name}_lnt", len(got), env, []))
-                exp.append((name, got, {"Om0": Om0, "h": float(cosmo.h), "params": params, "lnk": lnk.tolist()}, "gen"))
+                if "tree" not in comp.get(f"{name}_lnt", {}):
+                    if not any(b.get("what", "").startswith(f"no generated term for {name}") for b in out["broken"]):
+                        out["broken"].append({"kind": "translator", "what": f"no generated term for {name}_lnt: {comp.get(f'{name}_lnt', {}).get('unsupported')}"})
+                    env = {"lnk": lnk, "cosmo.Om0": float(cosmo.Om0), "cosmo.Ob0": float(cosmo.Ob0), "cosmo.h": float(cosmo.h), **{f"p.{k}": float(v) for k, v in o.params.items() if isinstance(v, (int, float))}}
+                else:
+                    t = tup(comp[f"{name}_lnt"]["tree"])
+                    env = auto_env(t, o, args={"lnk": lnk})
+                    reqs.append((f"Transfer/{name}_lnt", len(got), env, []))
+                    exp.append((name, got, {"Om0": Om0, "h": float(cosmo.h), "params": params, "lnk": lnk.tolist()}, "gen"))
                 if name in ("BBKS", "BondEfs"):
                     reqs.append((f"SpecTransfer/{name}_lnt", len(got), env, []))
                     exp.append((name, got, {"Om0": Om0, "h": float(cosmo.h), "params": params, "lnk": lnk.tolist()}, "spec"))
@@ -92,12 +97,14 @@ def run(ctx):
         k0, T0 = kt.copy(), Tt.copy()
         fresh = {"FromArray": lambda: tm.FromArray(Planck15, k=kt, T=Tt), "FromFile": lambda: tm.FromFile(Planck15, fname=fname)}
         for name, mk in fresh.items():
-            inside = np.log(kt[5:50])
+            inside = np.concatenate([np.log(kt[0:50]), np.log(kt[0:3]) + 0.4 * np.diff(np.log(kt[0:4]))])
+            inside.sort()
             o = mk()
             a = o.lnt(inside)
             ntab += 1
-            if not np.allclose(a, np.log(Tt[5:50]), rtol=1e-9, atol=1e-12):
-                viol(f"{name}/nodes", f"{name}: table not reproduced at its nodes for a range inside the table (max dev {np.max(np.abs(a - np.log(Tt[5:50]))):.3g})")
+            at_nodes = o.lnt(np.log(kt[0:50]))
+            if not np.allclose(at_nodes, np.log(Tt[0:50]), rtol=1e-9, atol=1e-12):
+                viol(f"{name}/nodes", f"{name}: table not reproduced at its nodes for a range inside the table (max dev {np.max(np.abs(at_nodes - np.log(Tt[0:50]))):.3g})")
             wide = np.linspace(np.log(1e-6), np.log(1e4), 80)
             w = o.lnt(wide)
             if not np.all(np.isfinite(w)) or np.max(np.abs(np.diff(w))) > 5:
